@@ -49,7 +49,58 @@ def run(chk):
         chk.ob("R1.opcodes", "Opcode", "no other opcodes", set(got) == set(OPCODES), f"variants {sorted(got)}")
     tf = prog.impl_fn(r"^<humphrey_ws::frame::Opcode as std::convert::TryFrom<u8>>$", "try_from")
     chk.floor("TryFrom<u8> for Opcode", len(tf), 1)
-    if tf:
+    if tf and tables.main_table(prog, tf[0]) is None:
+        # no `match` on the byte: decide the same table on the MIR
+        tb = prog.bodies[tf[0]]
+        from .. import byteset
+        fl = byteset.ByteFlow(prog, tb, ("param", 1, tb.local_name(1)))
+        got_map, err_mask, n_sites = {}, 0, 0
+        for bi_, blk_ in enumerate(tb.blocks):
+            for s_ in blk_["stmts"]:
+                rv_ = s_.get("rv")
+                if "pl" in s_ and s_["pl"]["l"] == 0 and not s_["pl"]["p"] and rv_ and rv_.get("k") == "agg" and rv_.get("adt", "").endswith("result::Result"):
+                    n_sites += 1
+                    m_ = fl.at_term.get(bi_, 0)
+                    if rv_["variant"] == "Ok":
+                        d_ = describe(prog, tb, rv_["ops"][0])
+                        if d_[0] == "variant" and d_[1].endswith("frame::Opcode"):
+                            for v_ in byteset.members(m_):
+                                got_map.setdefault(v_, set()).add(d_[2])
+                    else:
+                        err_mask |= m_
+        if n_sites:
+            for n, c in OPCODES.items():
+                chk.ob("R1.try_from", tf[0], f"0x{c:X} decodes to the variant with that discriminant", got_map.get(c) == {n}, f"byte 0x{c:X} decodes to {sorted(got_map.get(c, []))}")
+            chk.ob("R1.try_from", tf[0], "exactly the six defined opcodes decode", sorted(got_map) == sorted(OPCODES.values()), f"accepted bytes {sorted(got_map)[:12]}")
+            chk.ob("R1.try_from", tf[0], "reserved opcodes -> Err(InvalidOpcode)", err_mask == byteset.ALL & ~byteset.set_mask(OPCODES.values()) and
+                   any("InvalidOpcode" in str(describe(prog, tb, s_["rv"]["ops"][0])) for blk_ in tb.blocks for s_ in blk_["stmts"]
+                       if s_.get("rv") and s_["rv"].get("k") == "agg" and s_["rv"].get("variant") == "Err" and s_["rv"].get("ops")), f"error for {len(byteset.members(err_mask))} byte values")
+        else:
+            # table lookup: TABLE.iter().copied().find(|op| *op as u8 == byte).ok_or(InvalidOpcode) with TABLE the six variants —
+            # returns the variant whose discriminant is the byte (the discriminants are checked above)
+            d0 = describe(prog, tb, 0)
+            ok_or = d0[0] == "call" and d0[1].endswith("Option::<T>::ok_or") and "InvalidOpcode" in str(d0[2][1])
+            finds = [c for c in core.desc_calls(d0) if core.re.search(r"Iterator>?::find$", c[1])]
+            tab_ok = clo_ok = False
+            if finds:
+                recv, cl = finds[0][2][0], finds[0][2][1]
+                arrs = [y for y in core.desc_subterms(recv) if y[0] == "array"]
+                names = sorted(x[2] for x in arrs[0][1] if x[0] == "variant") if arrs else []
+                tab_ok = names == sorted(OPCODES) and not [c for c in core.desc_calls(recv) if core.re.search(r"::(rev|skip|take|step_by|filter)$", c[1])]
+                if cl[0] == "closure" and cl[1] in prog.bodies:
+                    cbody = prog.bodies[cl[1]]
+                    r_ = describe(prog, cbody, 0)
+                    if r_[0] == "bin" and r_[1] == "Eq":
+                        sides = [r_[2], r_[3]]
+                        dis = [x for x in sides if x[0] == "discr" and x[1][0] == "param"]
+                        up = [x for x in sides if x[0] == "upvar"]
+                        clo_ok = len(dis) == 1 and len(up) == 1 and up[0][1] < len(cl[2]) and cl[2][up[0][1]][0] == "param" and cl[2][up[0][1]][1] == 1
+            for n, c in OPCODES.items():
+                chk.ob("R1.try_from", tf[0], f"0x{c:X} decodes to the variant with that discriminant", ok_or and tab_ok and clo_ok,
+                       f"lookup form: ok_or(InvalidOpcode)={ok_or} table of the six variants={tab_ok} predicate `variant as u8 == byte`={clo_ok}")
+            chk.ob("R1.try_from", tf[0], "exactly the six defined opcodes decode", ok_or and tab_ok and clo_ok, "")
+            chk.ob("R1.try_from", tf[0], "reserved opcodes -> Err(InvalidOpcode)", ok_or, "")
+    elif tf:
         m = tables.main_table(prog, tf[0])
         mp, rest, dup = tables.simple_map(m, key_kinds=("lit",))
         for code, val in mp.items():
